@@ -55,6 +55,19 @@ def check(run, P):
     _ids(run, P)
     _agree(run, P)
     _phases(run, P)
+    # what the default predicate protects (shared with C13.storage)
+    from . import c13
+    for r_ in ("C13.storage", "C01.persist"):
+        run.rule_docs.setdefault(r_, "")
+        run.minimum.setdefault(r_, 0)
+    n0_ = len(run.obs)
+    c13._storage(run, P)
+    for o_ in run.obs[n0_:]:
+        if o_.rule in ("C13.storage", "C01.persist"):
+            o_.rule = "C16.pred"
+    for r_ in ("C13.storage", "C01.persist"):
+        run.rule_docs.pop(r_, None)
+        run.minimum.pop(r_, None)
 
 
 def _pred(run, P):
